@@ -64,5 +64,17 @@ try:
     s = re.sub(r"(`reverts.json`\): )(REVERTS_SUMMARY|[A-Z-]+ \d+[^.]*?of \d+)", lambda m: m.group(1) + summ, s)
 except Exception as e:
     pass
+try:
+    import glob, collections
+    parts = []
+    for f in sorted(glob.glob(os.path.join(V, "notes", "mutscore*.json"))):
+        rs = json.load(open(f))
+        c = collections.Counter((r["verdict"], r.get("tests")) for r in rs)
+        parts.append("%s: %d mutants, %d killed, %d survived and pass the tests, %d survived but fail the tests, %d undecided" % (
+            os.path.basename(f), len(rs), c[("KILLED", None)], c[("SURVIVED", "pass")], c[("SURVIVED", "fail")], sum(v for k, v in c.items() if k[0] == "UNDECIDED")))
+    if parts:
+        s = re.sub(r"(over all units\): )(MUTSCORE_SUMMARY|[^.]*?undecided(?:; [^.]*?undecided)*)", lambda m: m.group(1) + "; ".join(parts), s)
+except Exception as e:
+    print("mutscore summary failed", e)
 open(p, "w").write(s)
 print("tables regenerated")
